@@ -26,6 +26,7 @@ import (
 	"sync"
 	"sync/atomic"
 	"testing"
+	"testing/iotest"
 	"time"
 
 	jsonrpc "github.com/filecoin-project/go-jsonrpc"
@@ -384,7 +385,8 @@ type c20Call struct {
 	Seed uint64   `json:"seed"`
 	Plan ReadPlan `json:"plan"`
 	// the caller's reader: "" = fresh *strings.Reader; bytes = *bytes.Reader; section = *io.SectionReader; opaque = a
-	// reader exposing nothing but Read (length unknown to net/http). Skip bytes have already been consumed from it
+	// reader exposing nothing but Read (length unknown to net/http); dataeof = one that returns its last bytes together with
+	// io.EOF; half = one that makes short reads. Skip bytes have already been consumed from it
 	// (by reading, or by seeking when SkipBySeek) before it is passed: the caller's byte sequence is what remains.
 	Reader     string `json:"reader,omitempty"`
 	Skip       int    `json:"skip,omitempty"`
@@ -420,8 +422,15 @@ func (call c20Call) callerReader(payload []byte) (io.Reader, []byte) {
 			io.CopyN(io.Discard, rs, int64(skip))
 		}
 	}
-	if call.Reader == "opaque" {
+	switch call.Reader {
+	case "opaque":
 		return onlyReader{rs}, payload[skip:]
+	case "dataeof":
+		// hands out its last bytes together with io.EOF, as the io.Reader contract allows
+		return iotest.DataErrReader(onlyReader{rs}), payload[skip:]
+	case "half":
+		// short reads: never fills more than half of the buffer it is given
+		return iotest.HalfReader(onlyReader{rs}), payload[skip:]
 	}
 	return rs, payload[skip:]
 }
@@ -669,7 +678,7 @@ func genC20Call(t *rapid.T, i int, maxLen int) c20Call {
 	}
 	p.ZeroProbe = rapid.IntRange(0, 4).Draw(t, l+"zeroprobe") == 0
 	call := c20Call{Len: n, Seed: rapid.Uint64().Draw(t, l+"seed"), Plan: p}
-	call.Reader = rapid.SampledFrom([]string{"", "", "bytes", "section", "opaque"}).Draw(t, l+"reader")
+	call.Reader = rapid.SampledFrom([]string{"", "", "bytes", "section", "opaque", "dataeof", "half"}).Draw(t, l+"reader")
 	if n > 0 && rapid.IntRange(0, 3).Draw(t, l+"preconsumed") == 0 {
 		call.Skip = rapid.IntRange(1, n).Draw(t, l+"skip")
 		call.SkipBySeek = rapid.Bool().Draw(t, l+"seek")
@@ -734,7 +743,7 @@ const c20Rule = "payload length from edge lengths {0,1,2,15..17,511..513,4095..4
 func TestC20(t *testing.T) {
 	rec := NewRec("C20", c20Rule)
 	defer rec.Finish(t)
-	rec.RequireClass("push_address_with_trailing_slash", "zero_length_reads", "abandoned_call_then_late_upload", "upload_cut", "pre_consumed", "reader_bytes", "reader_section", "reader_opaque", "order_aligned", "len_0", "len_gt_32k", "reads_past_eof", "pattern_closeafter", "pattern_closeearly", "pattern_bytewise", "order_request_first", "order_upload_first", "ncalls_3", "tr_ws", "tr_http")
+	rec.RequireClass("push_address_with_trailing_slash", "zero_length_reads", "abandoned_call_then_late_upload", "upload_cut", "pre_consumed", "reader_bytes", "reader_section", "reader_opaque", "reader_dataeof", "reader_half", "order_aligned", "len_0", "len_gt_32k", "reads_past_eof", "pattern_closeafter", "pattern_closeearly", "pattern_bytewise", "order_request_first", "order_upload_first", "ncalls_3", "tr_ws", "tr_http")
 	env, err := newC20Env()
 	if err != nil {
 		t.Fatalf("env: %v", err)
@@ -774,7 +783,7 @@ func TestC20(t *testing.T) {
 		}
 		// the caller's reader: every kind, fresh and partly consumed (by reading or by seeking)
 		for _, tr := range []string{"ws", "http"} {
-			for _, kind := range []string{"", "bytes", "section", "opaque"} {
+			for _, kind := range []string{"", "bytes", "section", "opaque", "dataeof", "half"} {
 				for _, sk := range []struct {
 					n, skip int
 					seek    bool
